@@ -88,21 +88,32 @@ class Run:
         self.clk = clk
         mt = 1.0 if tempo is None else tempo
         mb = 0.0 if beats is None else beats
-        if secs is None or (secs == 0 and self.mode == 'rt'):
+        # documented: "beats: the time in beats, corresponding to the
+        # reference time given with the seconds argument"
+        ok, got = self.call('beats2secs', clk.beats2secs, mb)
+        if not ok:
+            return None
+        if secs is None:
             # "defaults to the current thread's logical time": the main
             # thread's, read somewhere during the constructor call
             if self.mode == 'nrt':
                 ms = t0
             else:
-                ok, ms = self.call('beats2secs', clk.beats2secs, mb)
-                if not ok:
-                    return None
-                if not (t0 - 1e-6 <= ms <= t1 + 1e-6):
-                    self.bad('C12/constructor/reference-second-not-now',
-                             base=ms, t0=t0, t1=t1)
-                    return None
+                ms = got
+            if not (t0 - 1e-6 <= got <= t1 + 1e-6):
+                self.bad('C12/constructor/reference-second-not-now',
+                         base=got, t0=t0, t1=t1)
+                return None
         else:
             ms = secs
+            self.n('constructor_reference_points_checked')
+            if abs(got - secs) > 1e-9 * max(1.0, abs(secs)) + 1e-9:
+                self.bad('C12/constructor/seconds-zero-taken-as-now'
+                         if secs == 0 else
+                         'C12/constructor/reference-point-differs',
+                         tempo=tempo, beats=beats, seconds=secs,
+                         beats2secs_of_beats=got, now=t0)
+                return None
         self.model = M.TempoMap(mt, mb, ms)
         self.n('clocks')
         return clk
@@ -447,17 +458,23 @@ class Run:
                                        'base_bar_beat': repr(real_bbb)},
                      text=why[1])
 
-    def op_ttnb(self, q):
+    def op_ttnb(self, spec):
         clk, mdl = self.clk, self.model
-        ok, r = self.call('time_to_next_beat', clk.time_to_next_beat, q)
+        q, p = quant_qp(spec)
+        ok, r = self.call('time_to_next_beat', clk.time_to_next_beat,
+                          self._quant_obj(spec))
         if not ok:
             return
         b = mdl.beats(self.now)
         self.n('time_to_next_beat_checked')
-        why = M.grid_check(b + r, q, 0, b, mdl.base_bar_beat, 2 * self.tolb(b))
+        if q == 0:
+            self.n('time_to_next_beat_quant_zero')
+        if p != 0:
+            self.n('time_to_next_beat_with_phase')
+        why = M.grid_check(b + r, q, p, b, mdl.base_bar_beat, 2 * self.tolb(b))
         if why:
-            self.bad(f'C12/time-to-next-beat/{why[0]}', quant=q, beats=b,
-                     result=r, text=why[1])
+            self.bad(f'C12/time-to-next-beat/{why[0]}', quant=q, phase=p,
+                     beats=b, result=r, text=why[1])
 
     def op_conv(self, x, y):
         clk, mdl = self.clk, self.model
